@@ -71,6 +71,19 @@ class C07(Prop):
             oth = [[None, e[1], e[2], LB] for e in rng.sample(s, min(3, len(s)))]
             for b in storelib.BACKENDS:
                 out.append(("random-stream", {"backend": b, "pt": pt, "stream": s, "other": oth}))
+        # day-scale durations, gaps and pulsetimes (timedelta keeps days, seconds and microseconds apart)
+        DAY = 86_400 * U
+        for _ in range(ctx.pick(60, 1500)):
+            m = rng.randint(2, 8)
+            t, end, s = 0, 0, []
+            for _ in range(m):
+                t += rng.choice([U, 3600 * U, DAY - U, DAY, DAY + U, 3 * DAY])
+                d = max(end - t, 0) + rng.choice([0, U, DAY - U, DAY, DAY + 1000, 2 * DAY + 1500])
+                end = t + d
+                s.append([None, T0 + t, d, rng.choice([LA, LA, LB])])
+            pt = rng.choice([0, 1, 3600, 86400, 86401, 200000])
+            for b in storelib.BACKENDS:
+                out.append(("day-scale-stream", {"backend": b, "pt": pt, "stream": s, "other": []}))
         return out
 
     def impl(self, case):
